@@ -2427,7 +2427,8 @@ class Component(System):
                     if 'J_fd' not in deriv:
                         deriv['J_fd'] = []
                         deriv['steps'] = []
-                    deriv['J_fd'].append(fd_partial)
+                    # a dense subjac returns its own storage, which the next step would overwrite
+                    deriv['J_fd'].append(fd_partial.copy())
                     deriv['steps'] = actual_steps[rel_key]
                     deriv['rows'] = subjacs_info['rows']
                     deriv['cols'] = subjacs_info['cols']
